@@ -268,6 +268,58 @@ def run_case(case):
                     w["schedule_used"] = {str(kk): v for kk, v in psched.items()}
             for inst in list(app._instance_manager._instances.values()):
                 opened.append(inst["instance"])
+        # ---- a scenario whose dt differs from its model's dt (runspecs at scenario level): sessions opened without an
+        #      explicit dt, on a bptk that has not run anything yet, must step on the scenario's grid like the batch run does
+        if w is None and case["seed"] % 3 == 0:
+            half = str(D(sp["run"]["dt"]) / 2)
+            sp2 = copy.deepcopy(sp)
+            sp2["run"]["dt"] = half
+            try:
+                ref2 = refsd.Ref(sp2)
+                table2 = ref2.table()
+                usable = ref2.min_dist >= 1e-6
+            except (X.IllConditioned, RecursionError):
+                usable = False
+            if usable:
+                def factory2():
+                    m, _ = S.build_dsl(sp, name="m")
+                    b = bptk()
+                    b.register_model(m, scenario_manager=MG, scenario={"base": {}, "fine": {"runspecs": {"dt": float(half)}}})
+                    return b
+                b3 = factory2()
+                opened.append(b3)
+                b3.begin_session(scenarios=["fine"], scenario_managers=[MG], equations=list(req), starttime=start)
+                got = {e: {} for e in req}
+                for k in range(len(ref2.times) + 2):
+                    r = b3.run_step()
+                    counters["python_steps"] = counters.get("python_steps", 0) + 1
+                    if r is None or "msg" in r:
+                        break
+                    for e in req:
+                        for t, v in r[MG]["fine"][e].items():
+                            got[e][float(t)] = float(v)
+                for e in req:
+                    w = w or cmp_series("python-session(scenario dt):" + e, got[e], ref2.times, table2[e], counters)
+                if w is None:
+                    app2 = BptkServer(__name__, factory2)
+                    opened.append(app2._bptk)
+                    c2 = app2.test_client()
+                    iid = json.loads(c2.post("/start-instance", json={}).get_data(as_text=True))["instance_uuid"]
+                    c2.post("/%s/begin-session" % iid, json={"scenario_managers": [MG], "scenarios": ["fine"], "equations": list(req)})
+                    body = c2.post("/%s/run-steps" % iid, json={"numberSteps": len(ref2.times), "settings": {}}).get_data(as_text=True)
+                    counters["rest_requests"] = counters.get("rest_requests", 0) + 3
+                    got = {e: {} for e in req}
+                    for r in json.loads(body):
+                        for e in req:
+                            for t, v in r.get(MG, {}).get("fine", {}).get(e, {}).items():
+                                got[e][float(t)] = float(v)
+                    for e in req:
+                        w = w or cmp_series("REST run-steps(scenario dt):" + e, got[e], ref2.times, table2[e], counters)
+                    for inst in list(app2._instance_manager._instances.values()):
+                        opened.append(inst["instance"])
+                    js2 = json.loads(app2.test_client().post("/run", json={"scenario_managers": [MG], "scenarios": ["fine"], "equations": list(req)}).get_data(as_text=True))
+                    for e in req:
+                        w = w or cmp_series("REST /run(scenario dt):" + e, {float(t): float(v) for t, v in js2[MG]["fine"]["equations"][e].items()}, ref2.times, table2[e], counters)
     except Exception as e:
         import traceback
         w = dict(kind="exception:" + type(e).__name__, error=traceback.format_exc()[-600:])
